@@ -20,3 +20,7 @@ Definition kernel_out {S O : Type} (f : S -> O) (batch : list S) : list O := map
 Definition kernel_out_sys0 {S O : Type} (g : S -> S -> O) (batch : list S) : list O :=
   match batch with [] => [] | s0 :: _ => map (g s0) batch end.
 
+
+(** where system [s] of a batch keeps slot [i] of an array that has [stride] slots per system (abundances and derivatives:
+    NEQUATIONS; Jacobian values: NNZ): "y + cur * NEQUATIONS", "data[cur * NNZ + n]" *)
+Definition block_index (stride s i : nat) : nat := s * stride + i.
